@@ -5,7 +5,10 @@
    before (`pre`) and after (`post`) the call as reported by Seek(0, io.SeekCurrent).  `dataOK`
    is the projection "the delivered bytes equal content[pre .. pre+n)" computed by the harness
    relative to the position the *code* reported; the spec checks that this position is the
-   model's offset, so together they pin which bytes were delivered. *)
+   model's offset, so together they pin which bytes were delivered.
+   Read events carry the context of the call (`cx`: "own" for Read; "bg" / "after" / "before" for
+   CtxReadFull, the harness cancels an "after" context right after the call and a "before" context
+   right before it) and `err`: "" | "ctx" (the call returned its context's error) | other text. *)
 EXTENDS SeekReader
 
 Trace == ndJsonDeserialize("trace.ndjson")
@@ -16,15 +19,25 @@ ASSUME TLCSet(1, 0)
 Ev == Trace[l]
 IsEvent(e) == l <= Len(Trace) /\ Trace[l].ev = e /\ l' = l + 1
 
-TInit == l = 1 /\ size = 0 /\ off = 0 /\ res = NoRes
+TInit == l = 1 /\ size = 0 /\ off = 0 /\ res = NoRes /\ dead = 0
 
 TReset == /\ IsEvent("Reset")
           /\ Ev.rsize = Ev.size                       \* Size() of the reader = length of the content
-          /\ size' = Ev.size /\ off' = 0 /\ res' = NoRes
+          /\ size' = Ev.size /\ off' = 0 /\ res' = NoRes /\ dead' = 0
+\* a call whose own context is alive: earlier contexts, cancelled or not, play no role
 TRead == /\ IsEvent("Read")
+         /\ <<Ev.api, Ev.cx>> \in LiveCalls
          /\ Ev.err = "" /\ Ev.pre = off
-         /\ Read(Ev.api, Ev.k)
+         /\ ReadCx(Ev.api, Ev.cx, Ev.k)
          /\ Ev.n = res'.n /\ Ev.eof \in res'.eofs /\ Ev.dataOK
+         /\ Ev.post = off'
+\* CtxReadFull with an already cancelled context
+TReadCancelled ==
+         /\ IsEvent("Read")
+         /\ Ev.api = "CtxReadFull" /\ Ev.cx = "before"
+         /\ Ev.err \in {"", "ctx"} /\ Ev.pre = off
+         /\ ReadCancelled(Ev.k, Ev.n, Ev.err = "ctx")
+         /\ Ev.eof \in res'.eofs /\ Ev.dataOK
          /\ Ev.post = off'
 TSeek == /\ IsEvent("Seek")
          /\ Ev.pre = off
@@ -38,7 +51,7 @@ TWriteTo == /\ IsEvent("WriteTo")
             /\ Ev.n = res'.n /\ Ev.dataOK
             /\ Ev.post = off'
 
-TNext == TReset \/ TRead \/ TSeek \/ TWriteTo
+TNext == TReset \/ TRead \/ TReadCancelled \/ TSeek \/ TWriteTo
 TSpec == TInit /\ [][TNext]_tvars
 
 TraceConstraint == TLCSet(1, IF l - 1 > TLCGet(1) THEN l - 1 ELSE TLCGet(1))
